@@ -75,6 +75,27 @@ CLAIMED = {
              'and plans recorded from glom are validated by TLC.',
         design='4/C05',
         technique='TLA+ frame machine + rendering laws (TLC), spec mutants, replay with parsed error messages, TLC validation of recorded traces'),
+    'C04': dict(
+        text='GlomErrors is a machine whose state is one in-flight exception record (class attributes measured on concrete classes: '
+             'ancestors, is-Exception, is-GlomError, result of cls(*args), result of copy.copy) raised at a node and travelling up '
+             'through one Pass/Catch action per enclosing construct and one action per branch of the except blocks of glom(); the laws '
+             '(class and args kept, GlomError when rebuildable, documented subtype for glom-detected failures, default/skip_exc select '
+             'exactly the errors matching at their origin and hand out the default object itself, glom_debug and BaseException-only '
+             'errors propagate the original object) are TLC invariants / an action property over every fault class x construct chain '
+             'x keyword combination in the bound; every behaviour is replayed on real specs with transparent probe nodes; seeded random '
+             'runs are stepped through Trace_C04; spec mutants must violate the laws.',
+        design='4/C04',
+        technique='TLA+ machine (GlomErrors) + TLC invariants, spec mutants, replay of every behaviour on real specs, TLC validation of recorded runs'),
+    'C19': dict(
+        text='GlomCli is a machine of the command line (25 actions transcribing cli.py; configuration revealed lazily: spec / target '
+             'channels, formats, flags, spec-text classes) with the laws stated from the property (stdout = json.dumps(glom(target, spec), '
+             'indent, sort_keys=True) and exit 0; GlomError -> exit 1 naming the class; unreadable / malformed target -> usage error and '
+             'no result; Exec only under python-full) checked by TLC with five spec mutants; every terminal behaviour is replayed through '
+             'glom.cli.main and real `python -m glom` child processes with real argv / files / stdin, an audit hook (compile / exec / '
+             'side effects) and planted markers over an adversarial spec-text grammar; seeded random invocations are validated row by '
+             'row by TLC.',
+        design='4/C19',
+        technique='TLA+ machine + TLC exploration, replay through real argv/files/stdin (in-process and child processes), audit-hook event traces validated by TLC'),
 }
 
 PENDING_REASON = 'check not built yet (planned: see DESIGN.md section 4); not claimed until both binding directions exist'
